@@ -208,6 +208,20 @@ type Script struct {
 	GluePlay       int
 	GlueKeepAlive  int
 	KeepAliveGlues int
+	// ContentBase: which base headers the DESCRIBE answer carries (R = the request
+	// URL without a trailing slash): "" or "slash" = Content-Base: R/ ; "noslash" =
+	// Content-Base: R ; "none" = neither header; "althost" = Content-Base: R/ with
+	// the host spelled "localhost"; "location" = Content-Location: R only; "both" =
+	// Content-Base: R/ and Content-Location: R.
+	ContentBase string
+	// ControlForm: how the a=control values of the media sections are advertised:
+	// "" = as in SDP (relative, e.g. streamid=0); "path" = relative with a leading
+	// path (media/sub/streamid=0); "abs" = absolute URL (R/streamid=0); "star" =
+	// relative, plus a session-level a=control:* (RFC 2326 C.1.1 aggregate control).
+	ControlForm string
+	// StrictSetup: SETUP is accepted only on a URL that RFC 2326 C.1.1 gives for a
+	// track (see SetupURLs), any other URL is answered 404.
+	StrictSetup bool
 	// RemapChannels: the camera answers each SETUP with another interleaved pair
 	// than the one it was asked for (asked+16) and sends on that pair — legal, the
 	// Transport header of the answer is what counts (RFC 2326 §12.39).
@@ -302,8 +316,9 @@ type conn struct {
 	cmd         chan command
 	session     string
 	peerClosedC chan struct{}
-	playerDone  chan struct{} // closed when the player goroutine has ended
-	playWritten chan struct{} // closed once the PLAY answer has been written: the player acts only after it
+	playerDone  chan struct{}      // closed when the player goroutine has ended
+	setupURLs   [2]map[string]bool // strict mode: the URLs accepted for SETUP of the video / audio track (fixed by the last DESCRIBE answer)
+	playWritten chan struct{}      // closed once the PLAY answer has been written: the player acts only after it
 }
 
 type command struct {
@@ -953,6 +968,15 @@ func (cn *conn) classify(r *Request) Step {
 	case "DESCRIBE":
 		return Describe
 	case "SETUP":
+		if sc.StrictSetup && cn.setupURLs[0] != nil {
+			switch {
+			case cn.setupURLs[0][r.URL]:
+				return SetupVideo
+			case cn.setupURLs[1][r.URL]:
+				return SetupAudio
+			}
+			return Other // no track lives at this URL: 404
+		}
 		if strings.Contains(r.URL, sc.AudioControl) && !strings.Contains(r.URL, sc.VideoControl) {
 			return SetupAudio
 		}
@@ -1091,15 +1115,63 @@ func (cn *conn) handle(r *Request) bool {
 		case FormatlessSDP:
 			body = sessionLevel + formatlessMedia[b.Variant%len(formatlessMedia)]
 		}
-		base := r.URL
-		if !strings.HasSuffix(base, "/") {
-			base += "/"
+		r0 := strings.TrimSuffix(r.URL, "/")
+		var bases []string // in the precedence of RFC 2326 C.1.1
+		hdrs := ""
+		switch sc.ContentBase {
+		case "", "slash":
+			bases = append(bases, r0+"/")
+			hdrs = "Content-Base: " + r0 + "/\r\n"
+		case "noslash":
+			bases = append(bases, r0)
+			hdrs = "Content-Base: " + r0 + "\r\n"
+		case "althost":
+			alt := strings.Replace(r0, "127.0.0.1", "localhost", 1) + "/"
+			bases = append(bases, alt)
+			hdrs = "Content-Base: " + alt + "\r\n"
+		case "location":
+			bases = append(bases, r0)
+			hdrs = "Content-Location: " + r0 + "\r\n"
+		case "both":
+			bases = append(bases, r0+"/", r0)
+			hdrs = "Content-Base: " + r0 + "/\r\nContent-Location: " + r0 + "\r\n"
 		}
-		full = head(200, "OK") + "Content-Base: " + base + "\r\nContent-Type: application/sdp\r\n"
+		bases = append(bases, r.URL)
+		if body == sc.SDP || b.Kind == FormatlessSDP {
+			adv := func(ctrl string) string {
+				switch sc.ControlForm {
+				case "path":
+					return "media/sub/" + ctrl
+				case "abs":
+					u := r0
+					if i := strings.IndexByte(u, '?'); i >= 0 {
+						u = strings.TrimSuffix(u[:i], "/")
+					}
+					return u + "/" + ctrl
+				}
+				return ctrl
+			}
+			va, aa := adv(sc.VideoControl), adv(sc.AudioControl)
+			if sc.ControlForm != "" {
+				body = strings.Replace(body, "a=control:"+sc.VideoControl+"\r\n", "a=control:"+va+"\r\n", 1)
+				body = strings.Replace(body, "a=control:"+sc.AudioControl+"\r\n", "a=control:"+aa+"\r\n", 1)
+				if sc.ControlForm == "star" {
+					if i := strings.Index(body, "m="); i >= 0 {
+						body = body[:i] + "a=control:*\r\n" + body[i:]
+					}
+				}
+			}
+			cn.setupURLs = [2]map[string]bool{SetupURLs(bases, va), SetupURLs(bases, aa)}
+		}
+		full = head(200, "OK") + hdrs + "Content-Type: application/sdp\r\n"
 		if body != "" {
 			full += fmt.Sprintf("Content-Length: %d\r\n", len(body))
 		}
 		full += "\r\n" + body
+	case r.Method == "SETUP" && step == Other:
+		record("404-setup-url")
+		cn.write([]byte(head(404, "Not Found") + "\r\n"))
+		return true
 	case r.Method == "SETUP":
 		track := 0
 		if step == SetupAudio {
@@ -1269,6 +1341,55 @@ func stripCL(hdrs string) string {
 	for _, l := range strings.SplitAfter(hdrs, "\r\n") {
 		if !strings.HasPrefix(strings.ToLower(l), "content-length:") {
 			out += l
+		}
+	}
+	return out
+}
+
+// SetupURLs returns the URLs at which a track with the advertised control value
+// may be set up, for the candidate bases of RFC 2326 C.1.1 (Content-Base, else
+// Content-Location, else the request URL — a client that ignores the headers and
+// works from the URL it asked for is accepted too, as real cameras do).
+//
+// An absolute control is the URL itself; "*" is the base. For a relative control
+// the RFC refers to RFC 1808; what servers and clients do in practice differs for
+// a base without trailing slash, and the property under test does not fix it, so
+// every established reading is accepted:
+//
+//	base "/" control with exactly one '/' at the seam (string append, what
+//	    ffmpeg / live555 / ipchub do; a query in the base stays where it is),
+//	the same with the base's query moved behind the control (ipchub),
+//	RFC 1808 §4 step 6: the control replaces the last path segment of the base
+//	    (the base's query is dropped).
+//
+// Not accepted: the control glued to the base without any '/' between them.
+func SetupURLs(bases []string, control string) map[string]bool {
+	out := map[string]bool{}
+	if strings.Contains(control, "://") {
+		out[control] = true
+		return out
+	}
+	for _, b := range bases {
+		if control == "*" || control == "" {
+			out[b] = true
+			continue
+		}
+		out[strings.TrimRight(b, "/")+"/"+control] = true
+		pre, q := b, ""
+		if i := strings.IndexByte(b, '?'); i >= 0 {
+			pre, q = b[:i], b[i:]
+			out[strings.TrimRight(pre, "/")+"/"+control+q] = true
+		}
+		// RFC 1808: everything of the base path behind its last '/' goes
+		rest := pre
+		scheme := ""
+		if i := strings.Index(pre, "://"); i >= 0 {
+			scheme, rest = pre[:i+3], pre[i+3:]
+		}
+		if i := strings.LastIndexByte(rest, '/'); i >= 0 {
+			out[scheme+rest[:i+1]+control] = true
+		} else {
+			out[scheme+rest+"/"+control] = true
 		}
 	}
 	return out
